@@ -63,6 +63,10 @@ SHAPES = [
      ["@user"], True),
     ("reference in key position inside a macro body", [{"name": "@k", "pattern": [{U: {"times": 3}}]}], ["@k"], True),
     ("two different undefined references", M, [Ref("U1"), {"mov": [Ref("U2")]}, "@m"], True),
+    ("definitions supplied but unused: reference as item", M, [U], True),
+    ("definitions supplied but unused: reference as operand", M + BLOCK, [{"mov": [U, "rax"]}], True),
+    ("definitions supplied but unused: reference as key with body", BLOCK, [{U: {"times": 2}}, "nop"], True),
+    ("definitions supplied but unused: reference under $or", M, [{"$or": [U, "nop"]}], True),
     ("all defined: item, operand, key", M + BLOCK, ["@m", {"mov": ["@m"]}, {"@m": {"times": 2}}, "@blk"], False),
     ("all defined: user listed before used", [{"name": "@a", "pattern": [{"$or": ["@b", "zzz"]}]}, {"name": "@b", "pattern": "nop"}],
      ["@a"], False),
